@@ -160,6 +160,25 @@ func (g *Gen) oddSpellings(p *prng, name, base string) []string {
 	if m != nil {
 		nd := len(digitRun.FindAllString(m[2], -1))
 		out = append(out, m[1]+replaceNth(digitRun, m[2], p.n(nd), "18446744073709551617")+m[3])
+		// carry pairs: a.(b-1).(c+2^k) next to a.b.c - what a bit-packed key
+		// with too narrow a field confuses with the base
+		if comps := strings.Split(m[2], "."); len(comps) >= 2 && p.chance(1, 3) {
+			i := 1 + p.n(len(comps)-1)
+			hi, e1 := strconv.Atoi(comps[i-1])
+			lo, e2 := strconv.Atoi(comps[i])
+			if e1 == nil && e2 == nil && hi >= 1 && hi < 1<<20 && lo < 1<<20 {
+				for _, k := range []uint{8, 10, 12, 16, 20, 21, 22, 24, 31, 32} {
+					if p.chance(1, 3) {
+						c := append([]string(nil), comps...)
+						c[i-1] = strconv.Itoa(hi - 1)
+						c[i] = strconv.Itoa(lo + 1<<k)
+						out = append(out, m[1]+strings.Join(c, ".")+m[3])
+						c[i-1] = strconv.Itoa(hi)
+						out = append(out, m[1]+strings.Join(c, ".")+m[3])
+					}
+				}
+			}
+		}
 		// component-count ladder: a few more components than usual, around the
 		// capacities a parser might pre-size for (8, 16, 32)
 		if p.chance(1, 2) {
